@@ -4773,6 +4773,9 @@ def container_script_repr(container,imports,prefix,settings):
     else:
         raise NotImplementedError
     rep=d1+','.join(result)+d2
+    if isinstance(container,tuple) and len(result)==1:
+        # a one-element tuple needs its trailing comma
+        rep=d1+result[0]+','+d2
 
     # no imports to add for built-in types
 
